@@ -30,9 +30,10 @@ MANIFEST = dict(
 )
 
 # finding keys (ids assigned by the maintainer; signatures implemented in `oracle` below)
-KNOWN_UNAWAITED = "F10"          # resource owned at quiescence by a terminated process never reported / given after its last report
-KNOWN_STALE_USE = "F10b"         # execute on an id absent from resource_ownership
-KNOWN_DOUBLE_CLOSE = "F10c"      # second close of an id that a transfer re-registered after it was closed
+KNOWN_UNAWAITED = "F10"          # resource owned at quiescence by a terminated process never reported / given after a report
+KNOWN_STALE_USE = "F47"          # execute on an id absent from resource_ownership
+KNOWN_DOUBLE_CLOSE = "F48"       # second close of an id that a transfer re-registered after it was closed
+KNOWN_FOREIGN_TRANSFER = "F49"   # send/spawn by a process that does not own the resource it carries
 
 HEADER = ("'h = \\TestRes, 'm = H['h] | T[['h, 'int]] | D[[['h, 'int], 'int]] | F[(#[] -> 'h)] "
           "| G[[(#[] -> 'h), 'int]] | P['h, 'h] | N['int]")
@@ -100,8 +101,10 @@ class PGen:
                     ops.append("accept")
             if self.np < 3 and depth < 2:
                 ops += ["spawn"] * 3
-            if (mine or stale) and targets():
+            if mine and targets():
                 ops += ["send"] * 3
+            elif stale and targets() and rng.random() < 0.25:
+                ops.append("send")
             if todo_recv:
                 ops += ["recv"] * 2
             if stale:
@@ -255,9 +258,11 @@ def oracle(run, stats):
     status = {p: s for p, s in (section(["x"] + final, "status"))}
     problems = []
     own, term, closed = {}, set(), {}
-    reported, acquired = {}, {}
+    reported = {}        # pid -> True once a ProcessResults listed it
+    given_after = set()  # (r, p): an event that can give r to p was handled after p was reported
     revived = set()      # ids a transfer (re)registered while absent from the map
     denied = []
+    classes = dict(early=False, f47=False, f48=False, f49=False)
     for idx, st in enumerate(steps):
         if st[0] == "term":
             term.add(st[1])
@@ -274,16 +279,24 @@ def oracle(run, stats):
         if kind in ("send", "spawn"):
             vals = [ev[2]] if kind == "send" else ev[3]
             recipient = ev[1] if kind == "send" else ev[2]
+            initiator = ev[3] if kind == "send" else ev[1]
+            if initiator == "?":
+                stats["sends_with_unknown_sender"] += 1
             carried = [x for v in vals for x in rids_in(v, 0 if kind == "send" else 1)]
             # a send's message is itself the value: depth counted from the message constructor
             for r, d in carried:
                 stats["depths"][d] = stats["depths"].get(d, 0) + 1
                 explained.add(r)
+                if recipient in reported:
+                    given_after.add((r, recipient))
                 if r not in own:
                     revived.add(r)
+                    classes["f48"] = True
                     stats["transfers_of_absent_id"] += 1
-                elif own[r] in term:
-                    pass
+                elif initiator != "?" and own[r] != initiator:
+                    classes["f49"] = True
+                    stats["transfers_by_non_owner"] += 1
+                    problems.append(("transfer-by-non-owner", "%s: %s is carried by a %s of process %s but owned by %s" % (dump(ev), r, kind, initiator, own[r]), KNOWN_FOREIGN_TRANSFER))
                 if own_after.get(r) != recipient:
                     problems.append(("transfer-postcondition", "after %s owner of %s is %s, not the recipient %s" % (dump(ev), r, own_after.get(r), recipient), None))
                 if recipient in term:
@@ -306,9 +319,12 @@ def oracle(run, stats):
                     if r in own and own[r] != p:
                         problems.append(("non-owner-reached-backend", "execute(%s, %s) while owner is %s" % (p, dump(eff), own[r]), None))
                     elif r not in own:
+                        classes["f47"] = True
                         problems.append(("absent-id-reached-backend", "execute(%s, %s): id not in resource_ownership" % (p, dump(eff)), KNOWN_STALE_USE))
                 if ans[0] == "now" and isinstance(ans[1], list) and ans[1][0] == "res":
                     explained.add(ans[1][1])
+                    if p in reported:
+                        given_after.add((ans[1][1], p))
                     if own_after.get(ans[1][1]) != p:
                         problems.append(("creator-not-owner", "resource %s created for %s is owned by %s" % (ans[1][1], p, own_after.get(ans[1][1])), None))
                 if ans[0] == "async":
@@ -329,12 +345,15 @@ def oracle(run, stats):
                     problems.append(("close-outside-cleanup", "close_resource(%s) during %s" % (r, dump(ev)), None))
         if kind == "complete" and isinstance(ev[2], list) and ev[2][0] == "res":
             explained.add(ev[2][1])
+            if ev[1] in reported:
+                given_after.add((ev[2][1], ev[1]))
             if own_after.get(ev[2][1]) != ev[1]:
                 problems.append(("creator-not-owner", "completion %s: owner is %s" % (dump(ev), own_after.get(ev[2][1])), None))
         if kind == "results":
             for p in ev[2]:
-                reported[p] = idx
+                reported[p] = True
                 if p not in term:
+                    classes["early"] = True
                     problems.append(("reported-before-termination", "ProcessResults lists %s which has not terminated" % p, None))
                 left = [r for r, o in own_after.items() if o == p]
                 if left:
@@ -345,29 +364,32 @@ def oracle(run, stats):
         # frame: ownership changes only by transfer / creation / cleanup
         for r in set(own) | set(own_after):
             if own.get(r) != own_after.get(r):
-                acquired[r] = idx
                 if r not in explained:
                     problems.append(("unexplained-ownership-change", "%s: %s -> %s during %s" % (r, own.get(r), own_after.get(r), dump(ev)), None))
         own = own_after
     quiescent = end and end[0] == "quiescent"
+    f10 = {}
+    for r, p in own.items():
+        if p in term:
+            f10[(r, p)] = (p in reported, (r, p) in given_after)
     if quiescent:
         for r, p in own.items():
             if p in term:
                 never = p not in reported
-                late = (not never) and acquired.get(r, -1) > reported[p]
+                late = (r, p) in given_after
                 stats["leaked_at_quiescence"] += 1
                 if never:
                     stats["unawaited_owner"] = True
                 problems.append(("not-closed-after-termination",
                                  "resource %s still owned by terminated process %s at quiescence (%s)" %
-                                 (r, p, "never reported" if never else "acquired after its last report" if late else "REPORTED and not cleaned"),
+                                 (r, p, "never reported" if never else "given after a report" if late else "REPORTED and not cleaned"),
                                  KNOWN_UNAWAITED if (never or late) else None))
         for p in denied:
             if status.get(p) != "failed":
                 problems.append(("denied-use-did-not-fail", "process %s was denied but its final status is %s" % (p, status.get(p)), None))
     if section(["x"] + final, "mail"):
         stats["mailbox_leftover"] = True
-    return problems
+    return problems, classes, f10
 
 
 def corpus(name):
@@ -403,9 +425,11 @@ def run(ctx):
             kinds.append("generated")
     _, real = ctx.run_sharded(qo, cases, shards=None if len(cases) > 60 else 1)
     stats = dict(events={}, depths={}, transfers=0, transfers_of_absent_id=0, transfers_to_terminated=0, denied_uses=0,
+                 transfers_by_non_owner=0, sends_with_unknown_sender=0,
                  executes=0, closes=0, async_effects=0, leaked_at_quiescence=0)
     hist = dict(histories=0, compile_rejected=0, with_unawaited_owner=0, with_mailbox_leftover=0, with_denied_use=0,
-                with_absent_id_use=0, with_double_close=0)
+                with_absent_id_use=0, with_double_close=0,
+                with_transfer_by_non_owner=0)
     ends, quanta, modes, workers_hist = {}, {}, {}, {}
     runs, run_cases = [], []
     for ci, (c, line) in enumerate(zip(cases, real)):
@@ -460,7 +484,16 @@ def run(ctx):
         # ---- the property on the real log
         st_before = dict(stats)
         local = dict(stats, unawaited_owner=False, mailbox_leftover=False)
-        problems = oracle(r, local)
+        problems, classes, f10 = oracle(r, local)
+        # the checker's class signatures must be the Coq monitors' (res/Own.v KnownF47/F48/F49, f10_scan)
+        if not bad:
+            try:
+                mc = {k: v == "true" for k, v in section(mm, "classes")}
+                mf = {(x[0], x[1]): (x[2] == "true", x[3] == "true") for x in section(mm, "f10")}
+                if any(mc[k] != classes[k] for k in classes) or not mc["fresh"] or mf != f10:
+                    bad = "known-class monitors: checker %s %s / Coq %s %s" % (classes, f10, mc, mf)
+            except Exception as e:
+                bad = "model classes unparsable: %s" % e
         for k in stats:
             stats[k] = local[k]
         if local["unawaited_owner"]:
@@ -474,6 +507,8 @@ def run(ctx):
                 flags.add("absent")
             if cls == "closed-twice":
                 flags.add("double")
+            if cls == "transfer-by-non-owner":
+                flags.add("foreign")
             n = reported.get(cls, 0)
             reported[cls] = n + 1
             if n < 3:
@@ -495,6 +530,7 @@ def run(ctx):
         hist["with_denied_use"] += "denied" in flags
         hist["with_absent_id_use"] += "absent" in flags
         hist["with_double_close"] += "double" in flags
+        hist["with_transfer_by_non_owner"] += "foreign" in flags
     if replaying:
         print("replay: %s" % real)
     steps_total = sum(stats["events"].values())
